@@ -139,6 +139,26 @@ type DictLists struct {
 	B []bool     `parquet:"b,list"`
 }
 
+// Embedded: anonymous structs two levels deep, the first level not at offset
+// zero (promoted fields are addressed by accumulated offsets on the typed path
+// and by index paths on the reflection paths).
+type EmbInner struct {
+	C int32   `parquet:"c"`
+	D *string `parquet:"d"`
+}
+
+type EmbMiddle struct {
+	B int64 `parquet:"b"`
+	EmbInner
+	F []int32 `parquet:"f,list"`
+}
+
+type Embedded struct {
+	A int32 `parquet:"a"`
+	EmbMiddle
+	E float64 `parquet:"e,optional"`
+}
+
 type Deep struct {
 	A []struct {
 		B []struct {
@@ -556,4 +576,5 @@ func init() {
 	register[Maps]("Maps")
 	register[Deep]("Deep")
 	register[DictLists]("DictLists")
+	register[Embedded]("Embedded")
 }
